@@ -237,6 +237,31 @@ def depends(pid, sc):
     return seen
 
 
+def affected_names(changed, repo=None):
+    """simple names (last path segment) of every function whose callee/reference closure contains a changed item:
+    the API entry points through which a change can be exercised"""
+    sc = scan(repo or E.REPO)
+    ns = nodes(sc)
+    changed = set(changed)
+    memo = {}
+
+    def reach(n):
+        if n in memo:
+            return memo[n]
+        memo[n] = n in changed          # cycles: provisional
+        if n in ns and not memo[n] and not n.startswith(("file:", "type:", "impl:")):
+            for m in ns[n].get("callees", []) + ns[n].get("refs", []):
+                if m in changed or (m in ns and reach(m)):
+                    memo[n] = True
+                    break
+        return memo[n]
+    out = set()
+    for n, v in ns.items():
+        if is_fn(v) and reach(n):
+            out.add(n.split("::")[-1].split("@")[0])
+    return out
+
+
 # ---------------------------------------------------------------- check
 
 def _ints(node):
